@@ -12,10 +12,27 @@ from .n_c05 import gen, expected, obj_canon
 from .n_c17 import free_udp_ports
 
 
+def classify(m):
+    """'deliver' (with the reference device), 'none' (must not be delivered: fails the gate or unknown model) or 'either'
+    (passes the gate with a known model but is not a well-formed broadcast of that family, e.g. a truncated Breeze frame
+    that happens to be 165 bytes long: the statement does not say whether that is a 'valid broadcast')"""
+    from contracts import spec
+    from .n_c05 import BY_CODE
+    e = expected(m)
+    if e is not None:
+        return "deliver", e
+    if not spec.gate_spec(m) or spec.model_code(m) not in BY_CODE:
+        return "none", None
+    return "either", None
+
+
 def bad_datagram(rnd, good):
     k = rnd.randrange(5)
     if k == 0:
-        return bytes(rnd.randrange(256) for _ in range(rnd.randrange(0, 200)))
+        b = bytearray(rnd.randrange(256) for _ in range(rnd.randrange(0, 200)))
+        if b:
+            b[0] = rnd.randrange(0xFE)          # never the magic
+        return bytes(b)
     if k == 1:
         return good[:rnd.randrange(0, len(good))]
     if k == 2:
@@ -69,26 +86,22 @@ def run_case(c):
                 if count[0] % 3 == 0:
                     raise RuntimeError("user callback failed")
             proto = bridge.UdpClientProtocol(bridge.partial(bridge._parse_device_from_datagram, cb))
-            want = []
-            for _ in range(rnd.randrange(1, 25)):
+            from .n_c08 import fields_agree
+            for step in range(rnd.randrange(1, 25)):
                 good = gen(rnd)
-                if rnd.random() < 0.5:
-                    m = good
-                else:
-                    m = bad_datagram(rnd, good)
-                e = expected(m)
-                if e is not None:
-                    want.append(e)
+                m = good if rnd.random() < 0.5 else bad_datagram(rnd, good)
+                kind, e = classify(m)
+                before = len(log)
                 feed(proto, m)
                 n += 1
-            ok = len(log) == len(want)
-            if ok:
-                from .n_c08 import fields_agree
-                for got, (cname, fields) in zip(log, want):
-                    if got["cls"] != cname or not fields_agree({"k": "ret", "v": got}, {"k": "ret", "v": canon(fields)}):
-                        ok = False
-            if not ok:
-                return {"ok": False, "evaluations": n, "detail": f"{len(log)} deliveries for {len(want)} valid broadcasts (or a wrong / reordered device)"}
+                got = log[before:]
+                ok = (kind == "deliver" and len(got) == 1) or (kind == "none" and not got) or (kind == "either" and len(got) <= 1)
+                if ok and kind == "deliver":
+                    cname, fields = e
+                    ok = got[0]["cls"] == cname and fields_agree({"k": "ret", "v": got[0]}, {"k": "ret", "v": canon(fields)})
+                if not ok:
+                    return {"ok": False, "evaluations": n, "detail": f"datagram #{step + 1} of the sequence ({kind}): {len(got)} deliveries / wrong device",
+                            "datagram": m.hex()}
         return {"ok": True, "evaluations": n}
     if k == "loopback":
         rnd = random.Random(i["seed"])
@@ -114,8 +127,10 @@ def run_case(c):
                 p = rnd.choice(ports)
                 good = gen(rnd)
                 m = good if rnd.random() < 0.5 else bad_datagram(rnd, good)
-                e = expected(m)
-                if e is not None:
+                kind, e = classify(m)
+                if kind == "either":
+                    m, (kind, e) = good, classify(good)
+                if kind == "deliver":
                     want[p].append((e[1]["device_id"], e[1]["name"]))
                 s.sendto(m, ("127.0.0.1", p))
                 sent += 1
